@@ -737,3 +737,106 @@ def end_no_pull(ctx):
                         ctx.ok(key, g.loc(bi, si), 'no source pull reachable after the end flag is set')
     if n == 0:
         ctx.anchor_missing('end-flag stores in the single-stream decoders')
+
+
+@rule('INTERRUPT-LATCH', ['C05'], floor=10)
+def interrupt_latch(ctx):
+    """A reader that forwards to a plain `inner.read(..)` may see ErrorKind::Interrupted, which by contract
+    means "nothing happened, call again". In the Err arm of such a call inside an impl Read::read:
+    (1) the error is not stored into a sticky error field unless the path tests that it is not Interrupted
+    (a latched Interrupted makes every retry fail: `read_to_end` spins forever);
+    (2) if the call has already copied bytes into the caller's buffer (a count accumulator that is later
+    returned in Ok), the Err arm does not return Err without testing the accumulator: the caller would
+    retry and the bytes already handed over are lost (success with missing data)."""
+    from lzlint.core import control_conditions, field_path
+    F = ctx.facts
+    n = 0
+    for f in read_impls(F):
+        prov = None
+        for bi, t, c in f.calls():
+            if not is_trait_call(c, READ_TRAITS, 'read') or t['dest']['p']:
+                continue
+            prov = prov or Prov(f)
+            d = t['dest']['l']
+            # the Err arm: switch on discr of d (possibly after moves)
+            holders = value_closure(f, {d}) if 'value_closure' in globals() else {d}
+            err_targets = []
+            for s in f.reachable:
+                tt = f.blocks[s]['term']
+                if tt['k'] != 'switch':
+                    continue
+                dl = op_local(tt['discr'])
+                dd = f.whole_defs(dl) if dl is not None else []
+                if len(dd) == 1 and dd[0][2] == 'assign' and dd[0][3]['rv']['r'] == 'discr' and dd[0][3]['rv']['p']['l'] in holders \
+                        and not dd[0][3]['rv']['p']['p']:
+                    for a in tt['arms']:
+                        if int(a[0]) == 1:
+                            err_targets.append(a[1])
+                    if not any(int(a[0]) == 1 for a in tt['arms']):
+                        err_targets.append(tt['otherwise'])
+            if not err_targets:
+                continue
+            n += 1
+            region = set()
+            for et in err_targets:
+                region |= {b for b in f.reach_from([et]) if f.dominates(et, b)}
+            key = '%s:err-arm-of-inner-read' % f.key
+            problems = []
+            # (1) sticky store
+            for b in sorted(region):
+                for si, st in enumerate(f.blocks[b]['stmts']):
+                    if not (st['k'] == 'assign' and st['lhs']['l'] == 1 and st['lhs']['p']):
+                        continue
+                    sv = prov.rvalue(st['rv'], 0, '%d:%d' % (b, si))
+                    if sv[0] == 'agg' and str(sv[1]).endswith('::Some'):
+                        conds = [cx for _, cx in control_conditions(f, b, prov)] + [cx for _, _, cx in guards_of(f, b, prov)]
+                        if not any('Interrupted' in expr_str(cx) for cx in conds):
+                            problems.append((b, 'the error is latched into `%s` without excluding ErrorKind::Interrupted: after one interrupted '
+                                             'read every retry fails with the stored error and `read_to_end` never returns' % '.'.join(field_path(st['lhs']) or ['?'])))
+            # (2) partial progress dropped
+            # count accumulators: user locals with a self-add definition that flow into an Ok(..) return
+            selfadd = set()
+            for l in range(f.arg_count + 1, len(f.locals)):
+                if not f.locals[l].get('name') or len(f.whole_defs(l)) < 2:
+                    continue
+                for (b3, s3, k3, node3) in f.whole_defs(l):
+                    if k3 == 'assign':
+                        e3 = prov.rvalue(node3['rv'], 0, '%d:%d' % (b3, s3))
+                        if any(y[0] == 'bin' and y[1].startswith('Add') and any(z[0] == 'local' and z[1] == l for z in expr_walk(y[2]))
+                               for y in expr_walk(e3)):
+                            selfadd.add(l)
+            acc = set()
+            for (b2, s2, k2, node) in f.whole_defs(0):
+                if k2 == 'assign' and node['rv']['r'] == 'agg' and node['rv'].get('variant_name') == 'Ok' and node['rv']['ops']:
+                    e = prov.operand(node['rv']['ops'][0], 0, '%d:%d' % (b2, s2))
+                    seen = set()
+                    work = [e]
+                    while work:
+                        x0 = work.pop()
+                        for x in expr_walk(x0):
+                            if x[0] == 'local' and x[1] not in seen:
+                                seen.add(x[1])
+                                if x[1] in selfadd:
+                                    acc.add(x[1])
+                                else:
+                                    work.extend(ex for _, ex in prov.def_exprs(x[1]))
+            if acc:
+                errret = [b for b in region if any(st['k'] == 'assign' and st['lhs']['l'] == 0 and st['rv']['r'] == 'agg' and
+                                                   st['rv'].get('variant_name') == 'Err' for st in f.blocks[b]['stmts'])]
+                errret += [b for b in region if f.blocks[b]['term']['k'] == 'call' and f.blocks[b]['term']['dest']['l'] == 0 and
+                           callee_of(f.blocks[b]['term']) and callee_of(f.blocks[b]['term'])['path'].endswith('from_residual')]
+                for b in errret:
+                    conds = [cx for _, cx in control_conditions(f, b, prov)] + [cx for _, _, cx in guards_of(f, b, prov)]
+                    if not any(any(y[0] == 'local' and y[1] in acc for y in expr_walk(cx)) for cx in conds):
+                        # can accumulation precede the inner read? (the read sits in a loop with the add)
+                        adds = [b3 for l in acc for (b3, s3, k3, n3) in f.whole_defs(l) if f.in_loop(b3)]
+                        if adds and f.in_loop(bi):
+                            problems.append((b, 'the Err arm returns the error although `%s` bytes may already have been copied into the caller\'s '
+                                             'buffer in this call: on a retry (Interrupted) those bytes are lost and the stream continues '
+                                             'after them' % '/'.join(sorted(f.local_name(l) for l in acc))))
+            if problems:
+                ctx.violation(key, f.loc(problems[0][0]), '; '.join(dict.fromkeys(p[1] for p in problems)))
+            else:
+                ctx.ok(key, f.loc(bi), 'Err arm neither latches an Interrupted error nor drops bytes already copied')
+    if n == 0:
+        ctx.anchor_missing('impl Read::read forwarding to a plain inner read')
